@@ -670,3 +670,46 @@ Proof.
     by (symmetry; apply Z.ltb_ge; lia).
   f_equal. rewrite Ec. symmetry. now apply filter_all_cand.
 Qed.
+
+(* ------------------------------------------------------------------ the query, both record types *)
+
+(** the specified answer: the rows of the unrestricted result that are in range, in the same order *)
+Definition spec_C11 (b : bucket) (s e : qtime) : list byte :=
+  if b_var b then enc_rows (filter (in_range_var s e) (var_rows_all b))
+  else concat (map enc_frow (filter (in_range_fixed (b_tf b) s e) (fixed_rows_all b))).
+
+Theorem exec_query_range b s e : in_domain_C11 b s e = true ->
+  exec_query b (q_go s) (q_go e) = Ok (spec_C11 b s e).
+Proof.
+  unfold in_domain_C11. rewrite !andb_true_iff. intros (((W & Hs) & He) & G).
+  assert (Q : queryable_tf (b_tf b) =? b_tf b = true).
+  { unfold wf_bucket in W. rewrite !andb_true_iff in W. tauto. }
+  unfold exec_query, read_bucket, spec_C11. rewrite Q.
+  destruct (b_var b) eqn:V.
+  - now apply read_var_filter.
+  - now rewrite read_fixed_filter.
+Qed.
+
+Lemma prop_C11_of_exec b s e : in_domain_C11 b s e = true -> prop_C11 b s e = true.
+Proof.
+  intros D. pose proof (exec_query_range b s e D) as H.
+  unfold in_domain_C11 in D. rewrite !andb_true_iff in D. destruct D as (((W & _) & _) & _).
+  assert (Q : queryable_tf (b_tf b) =? b_tf b = true).
+  { unfold wf_bucket in W. rewrite !andb_true_iff in W. tauto. }
+  unfold exec_query, read_bucket, spec_C11 in H. rewrite Q in H. unfold prop_C11.
+  destruct (b_var b).
+  - rewrite H. apply bytes_eqb_eq. reflexivity.
+  - inversion H as [H1]. apply bytes_eqb_eq. reflexivity.
+Qed.
+
+(** a range that contains every stored row returns the unrestricted result *)
+Corollary exec_query_whole b s e : in_domain_C11 b s e = true ->
+  (if b_var b then forallb (in_range_var s e) (var_rows_all b)
+   else forallb (in_range_fixed (b_tf b) s e) (fixed_rows_all b)) = true ->
+  exec_query b (q_go s) (q_go e) =
+  Ok (if b_var b then enc_rows (var_rows_all b) else concat (map enc_frow (fixed_rows_all b))).
+Proof.
+  intros D A. rewrite (exec_query_range b s e D). unfold spec_C11. destruct (b_var b).
+  - now rewrite (filter_all _ _ (forallb_Forall _ _ A)).
+  - now rewrite (filter_all _ _ (forallb_Forall _ _ A)).
+Qed.
